@@ -208,3 +208,27 @@ def outcome_label(outcome):
             return -1
         return ("bad", "raised %s" % outcome.exc_name)
     return ("bad", repr(outcome))
+
+
+def abstract_digests(conds):
+    """Replaces every application of an uninterpreted digest function by a fresh bit-vector
+    constant (same application -> same constant).  Over-approximates satisfiability; used
+    only for reachability twins of bit-precise paths, never for a deciding query."""
+    apps = {}
+
+    def collect(t):
+        if z3.is_app(t):
+            d = t.decl()
+            if d.kind() == z3.Z3_OP_UNINTERPRETED and d.arity() > 0 and d.name().endswith("_utf8"):
+                key = t.get_id()
+                if key not in apps:
+                    apps[key] = (t, z3.BitVec("digest!%d" % len(apps), t.sort().size()))
+                return
+            for c in t.children():
+                collect(c)
+    for c in conds:
+        collect(c)
+    if not apps:
+        return list(conds)
+    mapping = list(apps.values())
+    return [z3.substitute(c, *mapping) for c in conds]
